@@ -30,7 +30,7 @@ def extra(report, env):
     # whitespace at token boundaries; tokens given explicitly so that boundaries are known
     token_forms = [['1', '+', '2', '*', '3'], ['SUM(', '1', ',', '2', ')'], ['"a b"', '&', '"c"'], ['A1', '+', '$B$2'], ['{', '1', ',', '2', ';', '3', ',', '4', '}'],
                    ['-', '(', '2', '+', '3', ')', '/', '4'], ['IF(', '1', '<', '2', ',', '"y"', ',', '"n"', ')'], ['x', '>=', '1.5'],
-                   ['SUM(', 'A1:B2', ')'], ['35', '%'], ['2', '^', '3'], ['.', '5', '+', '1'], ["'q'", '&', '"r"'], ['MID(', '"hello"', ';', '2', ';', '3', ')']]
+                   ['SUM(', 'A1', ':', 'B2', ')'], ['SUM(', '$A$1', ':', 'B$2', ')', '+', 'a1', ':', 'a2'], ['35', '%'], ['2', '^', '3'], ['.', '5', '+', '1'], ["'q'", '&', '"r"'], ['MID(', '"hello"', ';', '2', ';', '3', ')']]
     wss = [' ', '\t', '\n', '  ', ' \t\n']
     for toks in token_forms:
         p.set_variable('x', 2)
@@ -146,7 +146,7 @@ def extra(report, env):
             outcomes.add(repr((r, got)))
         if len(outcomes) != 1 and len(fails) < 5:
             fails.append({'formula': 'SUM(%s)' % ref, 'detail': 'the case of the reference changes what the handler sees or the outcome: %s' % sorted(outcomes)[:2]})
-    bounded(report, 'C05.lexical', 'whitespace from {space, tab, newline, runs} at every token boundary of 14 token lists (seeded), all 2^n blank '
+    bounded(report, 'C05.lexical', 'whitespace from {space, tab, newline, runs} at every token boundary of 15 token lists (the colon of a range is a token of its own) (seeded), all 2^n blank '
             'patterns n<=6 x 3 separators, array literals, seeded literals up to 18+12 digits (exact), quoted texts (18 fixed + seeded texts over a 58-character alphabet incl. full-width forms), label case (every upper/lower pattern of 10 cell / range references, full handler view)', cases, fails)
 
 
